@@ -496,3 +496,42 @@ Qed.
 End JoinRepProof.
 
 Print Assumptions join_conn_src_rep.
+
+(* the hypotheses of join_conn_src_rep are met by a concrete circuit (structures 1 and 2 with two links between them,
+   one link each to the outside), and the merged table is the two outside links *)
+From Lekkersim Require SolveComplete.
+Section JoinRepExample.
+Variable K : cfield.
+Let cs : list conn := [((1, 0), (2, 1)); ((2, 0), (1, 2)); ((1, 1), (3, 0)); ((2, 2), (4, 0))]%nat.
+Let A : lst K := {| l_pins := [(1, 0); (1, 1); (1, 2)]%nat; l_S := mzero |}.
+Let B : lst K := {| l_pins := [(2, 0); (2, 1); (2, 2)]%nat; l_S := mzero |}.
+Let cdA : list (spin * spin) := [((1, 2), (2, 0)); ((1, 0), (2, 1)); ((1, 1), (3, 0))]%nat.
+Let cdB : list (spin * spin) := [((2, 0), (1, 2)); ((2, 1), (1, 0)); ((2, 2), (4, 0))]%nat.
+
+Example join_conn_src_rep_hypotheses_satisfiable :
+  NoDup (map fst (cdA ++ cdB)) /\
+  (forall x y, In (x, y) cdA <-> In x (l_pins A) /\ partner cs x = Some y) /\
+  (forall x y, In (x, y) cdB <-> In x (l_pins B) /\ partner cs x = Some y) /\
+  (forall x y, In (x, y) (cdA ++ cdB) -> idmem (fst x) [1; 2]%nat = true) /\
+  (forall x y, In (x, y) (cdA ++ cdB) -> idmem (fst y) [1; 2]%nat = mem y (l_pins A ++ l_pins B)) /\
+  (forall x y, In (x, y) cdA -> ~ In y (l_pins A)) /\
+  (forall x y, In (x, y) cdB -> ~ In y (l_pins B)) /\
+  (forall x y, partner cs x = Some y -> partner cs y = Some x) /\
+  join_conn_src cdA cdB [1; 2]%nat = [((1, 1), (3, 0)); ((2, 2), (4, 0))]%nat.
+Proof.
+  refine (conj _ (conj _ (conj _ (conj _ (conj _ (conj _ (conj _ (conj _ _)))))))).
+  - simpl. repeat constructor; simpl; intuition congruence.
+  - intros x y. split.
+    + intros [H|[H|[H|[]]]]; injection H as <- <-; (split; [simpl; tauto | reflexivity]).
+    + intros [[H|[H|[H|[]]]] Hp]; subst x; vm_compute in Hp; injection Hp as <-; simpl; tauto.
+  - intros x y. split.
+    + intros [H|[H|[H|[]]]]; injection H as <- <-; (split; [simpl; tauto | reflexivity]).
+    + intros [[H|[H|[H|[]]]] Hp]; subst x; vm_compute in Hp; injection Hp as <-; simpl; tauto.
+  - intros x y [H|[H|[H|[H|[H|[H|[]]]]]]]; injection H as <- <-; reflexivity.
+  - intros x y [H|[H|[H|[H|[H|[H|[]]]]]]]; injection H as <- <-; reflexivity.
+  - intros x y [H|[H|[H|[]]]]; injection H as <- <-; simpl; intuition congruence.
+  - intros x y [H|[H|[H|[]]]]; injection H as <- <-; simpl; intuition congruence.
+  - intros x y. apply SolveComplete.partner_sym. simpl. repeat constructor; simpl; intuition congruence.
+  - reflexivity.
+Qed.
+End JoinRepExample.
